@@ -128,6 +128,32 @@ func childSessionStress(a []string) string {
 	if wide {
 		nhosts, perHost, iters = 6, 1, 25
 	}
+	// services registered before all the others (smaller identifiers, earlier in the session's list), one of which goes
+	// away in every round while the requests of that round are being served
+	var early []bus.Service
+	if wide {
+		addr := util.NewUnixAddr()
+		l, err := qnet.Listen(addr)
+		if err != nil {
+			return "setup-error:" + err.Error()
+		}
+		ns, err := services.Namespace(hostSess, []string{addr})
+		if err != nil {
+			return "setup-error:" + err.Error()
+		}
+		esrv, err := bus.StandAloneServer(l, bus.Yes{}, ns)
+		if err != nil {
+			return "setup-error:" + err.Error()
+		}
+		defer esrv.Terminate()
+		for k := 0; k < rounds; k++ {
+			s, err := esrv.NewService(fmt.Sprintf("Early%d", k), pong.PingPongObject(&probeImpl{name: "early/"}))
+			if err != nil {
+				return "setup-error:" + err.Error()
+			}
+			early = append(early, s)
+		}
+	}
 	var hosts []*host
 	for i := 0; i < nhosts; i++ {
 		addr := util.NewUnixAddr()
@@ -321,6 +347,11 @@ func childSessionStress(a []string) string {
 			}
 		}
 		close(start)
+		if wide && round < len(early) {
+			// an earlier service leaves while the first connections of this round are being made
+			time.Sleep(time.Duration(500+r.Intn(1500)) * time.Microsecond)
+			early[round].Terminate()
+		}
 		done := make(chan struct{})
 		go func() { wg.Wait(); close(done) }()
 		select {
@@ -569,7 +600,7 @@ func runC19(r *Rand, tier string, o *Out) {
 		o.Count("shared-client:cancel-crosses-answer")
 	}
 	// requests repeated while connections to other endpoints are being made, one endpoint behind a long address list
-	wides := [][2]int{{14, 2}}
+	wides := [][2]int{{14, 5}}
 	if tier == "thorough" {
 		wides = [][2]int{{14, 6}, {28, 4}}
 	}
